@@ -129,9 +129,11 @@ type fn struct {
 }
 
 type gen struct {
-	ctx   *common.Ctx
-	fns   []*fn
-	calls int // user calls generated in the current body / main (bounded)
+	ctx        *common.Ctx
+	shared     []string // names used both as parameters of some functions and as package variables
+	bareGlobal bool     // some body has a bare symbol that is not a parameter (known finding C08-bare-symbol-body)
+	fns        []*fn
+	calls      int // user calls generated in the current body / main (bounded)
 }
 
 var pool = []string{"a", "b", "c"}
@@ -166,7 +168,30 @@ func (g *gen) userCall(target *fn, self *fn, guarded bool, depth int) *node {
 	return ucall(target.name, args...)
 }
 
+// lst: a form whose value is a list, often an EMPTY LIST OBJECT (not nil): (list), (rest (list x))
+func (g *gen) lst(self *fn, guarded bool, depth int) *node {
+	switch x := g.r(100); {
+	case x < 25:
+		return call("list")
+	case x < 50:
+		return call("rest", call("list", g.exprT(self, guarded, depth+1, true)))
+	case x < 65:
+		return call("rest", call("list", g.exprT(self, guarded, depth+1, true), g.atom(self)))
+	case x < 75:
+		return call("rest", call("rest", call("list", I(int64(g.r(7))), g.atom(self))))
+	case x < 85:
+		return call("rest", g.atom(self))
+	case x < 92:
+		return call("rest", Y("nil"))
+	default:
+		return call("progn", call("emit", I(int64(g.r(7)))), call("list"))
+	}
+}
+
 func (g *gen) atom(self *fn) *node {
+	if len(g.shared) > 0 && g.r(100) < 9 {
+		return Y(g.shared[g.r(len(g.shared))]) // a parameter of this name, or the package variable
+	}
 	if self != nil && g.r(100) < 60 {
 		ps := self.params
 		if g.r(100) < 4 {
@@ -256,8 +281,14 @@ func (g *gen) exprU(self *fn, guarded bool, depth int, num bool) *node {
 			cl = append(cl, L(Y("t"), g.exprT(self, guarded, depth+1, num)))
 		}
 		return L(cl...)
+	case x < 72 && !num:
+		return g.lst(self, guarded, depth)
 	case x < 77:
 		c := call("<", g.exprT(self, guarded, depth+1, true), I(int64(g.r(5))))
+		if g.r(100) < 35 {
+			// the test is a list-valued form: an empty list object counts as false (EvalArg turns it into nil)
+			c = g.lst(self, guarded, depth+1)
+		}
 		if g.r(4) == 0 {
 			return call("if", c, g.exprT(self, guarded, depth+1, num))
 		}
@@ -286,6 +317,37 @@ func (g *gen) body(f *fn) []*node {
 	var forms []*node
 	if g.r(100) < 30 {
 		forms = append(forms, call("emit", Y(f.params[g.r(len(f.params))])))
+	}
+	if g.r(100) < 22 {
+		// bodies that are bare symbols: a parameter, a name shared with a package variable, some other name
+		// (Lambda.Compile decides between the parameter and the package variable)
+		n := 1 + g.r(2)
+		for i := 0; i < n; i++ {
+			var sym string
+			switch x := g.r(100); {
+			case x < 78:
+				sym = f.params[g.r(len(f.params))]
+				// prefer a parameter whose name is also that of a package variable
+				for _, q := range f.params {
+					if strings.Contains(q, "v") && len(q) > 2 && g.r(100) < 60 {
+						sym = q
+					}
+				}
+			case x < 96 && len(g.shared) > 0:
+				sym = g.shared[g.r(len(g.shared))]
+			default:
+				// a name that is never a parameter nor defined as a variable (unique per program: Lambda.Compile
+				// creates a package variable for it, and the package is shared by all cases of a run)
+				sym = g.shared[0] + "u"
+			}
+			isParam := false
+			for _, q := range f.params {
+				isParam = isParam || q == sym
+			}
+			g.bareGlobal = g.bareGlobal || !isParam
+			forms = append(forms, Y(sym))
+		}
+		return forms
 	}
 	var main *node
 	rec := func() *node {
@@ -373,7 +435,7 @@ func gvalue(o slip.Object) (string, string) {
 		return "VVals [" + strings.Join(gs, "; ") + "]", "#values(" + strings.Join(ss, " ") + ")"
 	case slip.List:
 		if len(tv) == 0 {
-			return "VNil", "nil"
+			return "VList []", "()" // an empty list object is not nil
 		}
 		var gs, ss []string
 		for _, e := range tv {
@@ -385,6 +447,9 @@ func gvalue(o slip.Object) (string, string) {
 	default:
 		if o == slip.True {
 			return "VT", "t"
+		}
+		if o == slip.Unbound {
+			return "VUnbound", "<unbound>"
 		}
 		s := slip.ObjectString(o)
 		clean := strings.Map(func(r rune) rune {
@@ -543,11 +608,12 @@ var caseNo = 0
 // program: definitions (in level order), redefinitions, main forms; names carry the case number and a
 // variant letter so that variants of one program do not share the (global) function table
 type program struct {
-	fns    []*fn
-	defs   []*node
-	redefs [][]*node // rounds of redefinitions
-	redefI [][]int
-	mains  []*node
+	fns        []*fn
+	defs       []*node
+	redefs     [][]*node // rounds of redefinitions
+	redefI     [][]int
+	mains      []*node
+	bareGlobal bool
 }
 
 func rename(n *node, from, to string) *node {
@@ -566,6 +632,9 @@ func rename(n *node, from, to string) *node {
 
 func genProgram(ctx *common.Ctx, prefix string) *program {
 	g := &gen{ctx: ctx}
+	for i, ns := 0, 1+ctx.Rng.Intn(2); i < ns; i++ {
+		g.shared = append(g.shared, fmt.Sprintf("%sv%d", prefix, i))
+	}
 	nf := 2 + ctx.Rng.Intn(4)
 	for i := 0; i < nf; i++ {
 		// names that share a prefix with special operators and defining forms (Code.Compile and CompileList
@@ -574,7 +643,11 @@ func genProgram(ctx *common.Ctx, prefix string) *program {
 		f := &fn{name: fmt.Sprintf("%s%s%c", pre, prefix, 'a'+i), level: i, params: []string{"n"}}
 		np := ctx.Rng.Intn(3)
 		for j := 0; j < np; j++ {
-			f.params = append(f.params, pool[j])
+			if j < len(g.shared) && ctx.Rng.Chance(40) {
+				f.params = append(f.params, g.shared[j])
+			} else {
+				f.params = append(f.params, pool[j])
+			}
 		}
 		g.fns = append(g.fns, f)
 	}
@@ -582,10 +655,22 @@ func genProgram(ctx *common.Ctx, prefix string) *program {
 	for _, f := range g.fns {
 		p.defs = append(p.defs, g.defun(f))
 	}
+	// package variables named like parameters: at most one definition per name, so that the order of the
+	// definitions (they are permuted together with the functions: before and after them) does not matter
+	for _, v := range g.shared {
+		if ctx.Rng.Chance(75) {
+			p.defs = append(p.defs, L(Y(common.Pick(ctx.Rng, []string{"defvar", "defvar", "defparameter"})), Y(v), I(int64(10+ctx.Rng.Intn(90)))))
+		}
+	}
 	rounds := ctx.Rng.Intn(3)
 	for r := 0; r < rounds; r++ {
 		var ds []*node
 		var is []int
+		for _, v := range g.shared {
+			if ctx.Rng.Chance(35) {
+				ds = append(ds, L(Y(common.Pick(ctx.Rng, []string{"defvar", "defparameter", "defparameter"})), Y(v), I(int64(10+ctx.Rng.Intn(90)))))
+			}
+		}
 		for i, f := range g.fns {
 			if ctx.Rng.Chance(40) {
 				ds = append(ds, g.defun(f))
@@ -603,6 +688,7 @@ func genProgram(ctx *common.Ctx, prefix string) *program {
 	for i := 0; i < nm; i++ {
 		p.mains = append(p.mains, g.mainForm())
 	}
+	p.bareGlobal = g.bareGlobal
 	return p
 }
 
@@ -820,6 +906,11 @@ func Run(ctx *common.Ctx) {
 		// definition order, compiled or not, first or k-th, must give the same outcome - unless the outcome
 		// involves an undefined function (no variant of these templates redefines anything)
 		var ref string
+		if base.bareGlobal {
+			// what a bare non-parameter body symbol means depends on whether the variable exists when the defun is
+			// evaluated (known finding): such programs are judged by the model only
+			groupMains = nil
+		}
 		for vi, ms := range groupMains {
 			for _, m := range ms {
 				m = strings.ReplaceAll(m, fmt.Sprintf("q%d%c", caseNo, 'p'+vi), "")
@@ -841,7 +932,7 @@ func Run(ctx *common.Ctx) {
 		}
 	}
 	ctx.Meta.DistinctNontrivial = len(distinct)
-	ctx.Meta.Rule = "programs of 2-5 functions (names sharing prefixes with def*/let*/set*/if/lambda/quote/progn forms, 15% of the occurrences of a function name written in another case) over +,-,<,list,progn,if,case,floor,values,nil,t,emit (multiple-value producers in every argument position, as branches, bodies and main forms) with calls in argument position to functions of lower level and recursive calls (to any function, mutual recursion included) under (if (< n 1) ..); 0-2 rounds of redefinitions; 1-3 main forms; random definition order; seven history templates over code objects (one of them the REPL/load discipline: each form read, compiled and evaluated on its own) (load, Code.Compile, Code.Eval k=1..5 times, definitions before/after/between the main forms, redefinition between runs, fresh re-reading); wrong argument counts in 7% of the calls; evaluations = evaluations of a code object; distinct = distinct histories up to the name prefix"
+	ctx.Meta.Rule = "programs of 2-5 functions (names sharing prefixes with def*/let*/set*/if/lambda/quote/progn forms, 15% of the occurrences of a function name written in another case) over +,-,<,list,rest,progn,if,case,floor,values,nil,t,emit, defvar/defparameter of 1-2 variables whose names are also parameters of some functions (defined before and after the functions, redefined between runs), 22% of the bodies bare symbols (parameter / shared name / other), list-valued forms - often empty list objects - as tests of if (35%), branches, clause forms, arguments (multiple-value producers in every argument position, as branches, bodies and main forms) with calls in argument position to functions of lower level and recursive calls (to any function, mutual recursion included) under (if (< n 1) ..); 0-2 rounds of redefinitions; 1-3 main forms; random definition order; seven history templates over code objects (one of them the REPL/load discipline: each form read, compiled and evaluated on its own) (load, Code.Compile, Code.Eval k=1..5 times, definitions before/after/between the main forms, redefinition between runs, fresh re-reading); wrong argument counts in 7% of the calls; evaluations = evaluations of a code object; distinct = distinct histories up to the name prefix"
 	header := "From Coq Require Import List ZArith String.\nFrom C08 Require Import Model Spec Corr.\nImport ListNotations.\nOpen Scope string_scope.\nOpen Scope list_scope.\n"
 	footer := "Definition res := Eval vm_compute in check_all cases.\nPrint res.\nDefinition gcount := Eval vm_compute in guard_count cases.\nPrint gcount.\nDefinition outside := Eval vm_compute in outside_count cases.\nPrint outside.\nDefinition deviations := Eval vm_compute in deviation_count cases.\nPrint deviations.\n"
 	ctx.WriteShards("cases", header, "case", footer, terms, descs, 16)
